@@ -153,8 +153,6 @@ def check(run, replay):
     run.stream("property on printed findings (status iff unsuppressed finding)")["disagreements"] += len(spec_fail)
     other = 0
     for prog, cfg, rrc, want, printed in sorted(spec_fail, key=lambda x: (len(x[0].files), len(x[1]["nomsg"]) + len(x[1]["nofail"]))):
-        only_um = all(p[2] == "unmatchedSuppression" for p in printed if True) or \
-            all(p[2] == "unmatchedSuppression" or False for p in printed)
         # known shape: the status is the exit code although every printed finding is matched by an
         # exitcode suppression, and at least one printed finding is an unmatchedSuppression one
         shape = rrc == cfg["exitcode"] and want == 0 and any(p[2] == "unmatchedSuppression" for p in printed)
